@@ -26,3 +26,51 @@ _CM_DEF_OS = ("xordecode.py", "class XorEncodedFile(io.RawIOBase):", "@contextli
 _CM_DEF_VE = ("xordecode.py", "class XorEncodedFile(io.RawIOBase):", "@contextlib.contextmanager\ndef _ignoring_oserror():\n    try:\n        yield\n    except ValueError:\n        pass\n\n\nclass XorEncodedFile(io.RawIOBase):")
 T("C08", "twin-read-nonce-context-manager", "xordecode.py", "", "", edits=[_CM_IMPORT, _CM_DEF_OS, ("xordecode.py", _RN_OLD, _RN_NEW.replace("_ignoring({EXC})", "_ignoring_oserror()"))])
 M("C08", "read-nonce-context-manager-wrong-class", "xordecode.py", "", "", "C08.R1", edits=[_CM_IMPORT, _CM_DEF_VE, ("xordecode.py", _RN_OLD, _RN_NEW.replace("_ignoring({EXC})", "_ignoring_oserror()"))])
+
+# ---- round-5 refactorings / round-7 seeds (engine facts generalised; each twin has a mutant of the same kind)
+# search loop through the raising twin of find(): ValueError leaves the loop, the next start is hit + 1
+_IDX_OLD = ("        p = -1\n        while True:\n            p = d.find(needle, p + 1)\n            if p == -1 or max_offset and p > max_offset:\n                break\n"
+            "            offset = pos + p - len(saved)\n            yield offset\n")
+_IDX_NEW = ("        search_from = 0\n        while True:\n            try:\n                hit = d.index(needle, search_from)\n            except ValueError:\n                break\n"
+            "            if max_offset and hit > max_offset:\n                break\n            yield pos + hit - len(saved)\n            search_from = hit + {STEP}\n")
+T("C08", "twin-index-search-loop", "utils.py", _IDX_OLD, _IDX_NEW.replace("{STEP}", "1"))
+M("C08", "index-search-loop-restarts-at-the-hit", "utils.py", _IDX_OLD, _IDX_NEW.replace("{STEP}", "0"), "C08.R2")
+# conditional-expression spelling of the bytes -> BytesIO idiom
+_BIO_OLD = "    if isinstance(fobj, bytes):\n        fobj = io.BytesIO(fobj)\n\n    while True:\n        # Peek index"
+T("C08", "twin-bytesio-conditional-expression", "beacon.py", "", "", edits=[
+    ("beacon.py", "    if isinstance(fobj, bytes):\n        fobj = io.BytesIO(fobj)\n", "    fobj = io.BytesIO(fobj) if isinstance(fobj, bytes) else fobj\n")])
+# the validated-header facts: seek with an explicit SEEK_SET, terms of the offset sums reordered, annotated locals
+T("C08", "twin-validated-header-explicit-whence", "pe.py", "", "", edits=[
+    ("pe.py", "    fh.seek(mz_offset)\n    mz = pestruct.IMAGE_DOS_HEADER(fh)\n    fh.seek(mz.e_lfanew + mz_offset)\n    magic_pe = fh.read(4).rstrip(b\"\\x00\")\n",
+     "    fh.seek(mz_offset, io.SEEK_SET)\n    mz = pestruct.IMAGE_DOS_HEADER(fh)\n    fh.seek(mz_offset + mz.e_lfanew, io.SEEK_SET)\n    magic_pe: bytes = fh.read(4).rstrip(b\"\\x00\")\n")])
+M("C08", "validated-header-read-between-seek-and-parse", "pe.py", "", "", "C08.R1", edits=[
+    ("pe.py", "    fh.seek(mz_offset)\n    mz = pestruct.IMAGE_DOS_HEADER(fh)\n    fh.seek(mz.e_lfanew + mz_offset)\n    magic_pe = fh.read(4).rstrip(b\"\\x00\")\n",
+     "    fh.seek(mz_offset, io.SEEK_SET)\n    fh.read(2)\n    mz = pestruct.IMAGE_DOS_HEADER(fh)\n    fh.seek(mz_offset + mz.e_lfanew, io.SEEK_SET)\n    magic_pe = fh.read(4).rstrip(b\"\\x00\")\n")])
+M("C08", "find-mz-offset-memoised-per-file-object", "pe.py", "", "", "C08.R1", edits=[
+    ("pe.py", "import io\n", "import functools\nimport io\n"),
+    ("pe.py", "def find_mz_offset(", "@functools.lru_cache(maxsize=32)\ndef find_mz_offset(")])
+# single exit: the scan result lives in a local that is None unless a candidate was accepted
+_SE_OLD = "                    return start_offset + offset\n        except EOFError:\n            continue\n    return None\n"
+_SE_NEW = "                    found = start_offset + offset\n                    break\n        except EOFError:\n            pass\n    return found\n"
+T("C08", "twin-scan-single-exit", "pe.py", "", "", edits=[
+    ("pe.py", "    start_offset = start_offset if start_offset is not None else fh.tell()\n    for offset in range(maxrange):\n        fh.seek(start_offset + offset, io.SEEK_SET)\n        try:\n            mz = pestruct.IMAGE_DOS_HEADER(fh)\n            if mz.e_lfanew > 0 and mz.e_lfanew < maxrange:\n                fh.seek(start_offset + offset + 4 + mz.e_lfanew)\n                image = pestruct.IMAGE_FILE_HEADER(fh)\n                if image.Machine in (\n                    pestruct.IMAGE_FILE_MACHINE_AMD64,\n                    pestruct.IMAGE_FILE_MACHINE_I386,\n                ):\n" + _SE_OLD,
+     "    start_offset = start_offset if start_offset is not None else fh.tell()\n    found = None\n    for offset in range(maxrange):\n        fh.seek(start_offset + offset, io.SEEK_SET)\n        try:\n            mz = pestruct.IMAGE_DOS_HEADER(fh)\n            if mz.e_lfanew > 0 and mz.e_lfanew < maxrange:\n                fh.seek(start_offset + offset + 4 + mz.e_lfanew)\n                image = pestruct.IMAGE_FILE_HEADER(fh)\n                if image.Machine in (\n                    pestruct.IMAGE_FILE_MACHINE_AMD64,\n                    pestruct.IMAGE_FILE_MACHINE_I386,\n                ):\n" + _SE_NEW)])
+M("C08", "scan-single-exit-default-not-none", "pe.py", "", "", "C08.R3", edits=[
+    ("pe.py", "    start_offset = start_offset if start_offset is not None else fh.tell()\n    for offset in range(maxrange):\n        fh.seek(start_offset + offset, io.SEEK_SET)\n        try:\n            mz = pestruct.IMAGE_DOS_HEADER(fh)\n            if mz.e_lfanew > 0 and mz.e_lfanew < maxrange:\n                fh.seek(start_offset + offset + 4 + mz.e_lfanew)\n                image = pestruct.IMAGE_FILE_HEADER(fh)\n                if image.Machine in (\n                    pestruct.IMAGE_FILE_MACHINE_AMD64,\n                    pestruct.IMAGE_FILE_MACHINE_I386,\n                ):\n" + _SE_OLD,
+     "    start_offset = start_offset if start_offset is not None else fh.tell()\n    found = -1\n    for offset in range(maxrange):\n        fh.seek(start_offset + offset, io.SEEK_SET)\n        try:\n            mz = pestruct.IMAGE_DOS_HEADER(fh)\n            if mz.e_lfanew > 0 and mz.e_lfanew < maxrange:\n                fh.seek(start_offset + offset + 4 + mz.e_lfanew)\n                image = pestruct.IMAGE_FILE_HEADER(fh)\n                if image.Machine in (\n                    pestruct.IMAGE_FILE_MACHINE_AMD64,\n                    pestruct.IMAGE_FILE_MACHINE_I386,\n                ):\n" + _SE_NEW)])
+# Counter(...).items() ranked with sorted() instead of most_common(); chain() instead of list concatenation
+T("C08", "twin-ranked-candidates-sorted-items", "xordecode.py", "", "", edits=[
+    ("xordecode.py", "import collections\n", "import collections\nimport itertools\nimport operator\n"),
+    ("xordecode.py", "collections.Counter(eof_shellcode_offsets + nonce_offsets).most_common()", "sorted(collections.Counter(itertools.chain(eof_shellcode_offsets, nonce_offsets)).items(), key=operator.itemgetter(1), reverse=True)")])
+M("C08", "ranked-candidates-shifted-negative", "xordecode.py", "", "", "C08.R1", edits=[
+    ("xordecode.py", "import collections\n", "import collections\nimport itertools\nimport operator\n"),
+    ("xordecode.py", "collections.Counter(eof_shellcode_offsets + nonce_offsets).most_common()", "sorted(collections.Counter(itertools.chain(eof_shellcode_offsets, [o - 8 for o in nonce_offsets])).items(), key=operator.itemgetter(1), reverse=True)")])
+# parse_qs instead of parse_qsl: the last value of every key (values are non-empty lists)
+T("C08", "twin-parse-qs-last-value", "c2.py", "", "", edits=[
+    ("c2.py", "from urllib.parse import parse_qsl, urlsplit\n", "from urllib.parse import parse_qs, urlsplit\n"),
+    ("c2.py", "    query = parse_qsl(result.query.decode(\"ascii\"), encoding=\"latin-1\")\n    params = {key.encode(\"latin-1\"): value.encode(\"latin-1\") for key, value in query}\n",
+     "    query = parse_qs(result.query.decode(\"ascii\"), encoding=\"latin-1\")\n    params = {k.encode(\"latin-1\"): vs[-1].encode(\"latin-1\") for k, vs in query.items()}\n")])
+M("C08", "parse-qs-second-value", "c2.py", "", "", "C08.R1", edits=[
+    ("c2.py", "from urllib.parse import parse_qsl, urlsplit\n", "from urllib.parse import parse_qs, urlsplit\n"),
+    ("c2.py", "    query = parse_qsl(result.query.decode(\"ascii\"), encoding=\"latin-1\")\n    params = {key.encode(\"latin-1\"): value.encode(\"latin-1\") for key, value in query}\n",
+     "    query = parse_qs(result.query.decode(\"ascii\"), encoding=\"latin-1\")\n    params = {k.encode(\"latin-1\"): vs[1].encode(\"latin-1\") for k, vs in query.items()}\n")])
